@@ -21,6 +21,23 @@ def _echo(key, x, sample_shape=()):
 
 
 echo = wrap_sampler(_echo, name="echo")
+
+
+def aecho(x):
+    """the same key-echo sampler bound to the ADEV sample primitive (adev_sample_p)"""
+    from genjax.pjax import sample_binder, adev_sample_p
+    return sample_binder(_echo, name="aecho", primitive=adev_sample_p, primitive_params={"adev_prim": None})(x)
+
+
+# a persistent sampler object called with different keyword parameterisations
+def _kwecho(key, a=None, b=None, sample_shape=()):
+    kd = jax.random.key_data(key).astype(jnp.uint32)
+    tag = jnp.uint32(1) * (jnp.asarray(0.0 if a is None else a) * 10).astype(jnp.uint32) \
+        + jnp.uint32(1000) * (jnp.asarray(0.0 if b is None else b) * 10).astype(jnp.uint32)
+    return jnp.concatenate([kd, tag[None]])
+
+
+kwecho = pjax.sample_binder(_kwecho, name="kwecho")
 ZK = jnp.zeros((2,), dtype=jnp.uint32)
 
 # ---- program generator -------------------------------------------------------
@@ -32,7 +49,7 @@ def gen_block(rng, depth, straight=False, maxlen=3):
     for _ in range(n):
         r = rng.random()
         if straight or depth <= 0 or r < 0.5:
-            out.append(["sample"] if rng.random() < 0.7 else ["det"])
+            out.append((["sample"] if rng.random() < 0.7 else ["asample"]) if rng.random() < 0.7 else ["det"])
         elif r < 0.7:
             out.append(["cond", gen_block(rng, 0, True, 2), gen_block(rng, 0, True, 2)])
         elif r < 0.92:
@@ -43,7 +60,7 @@ def gen_block(rng, depth, straight=False, maxlen=3):
 
 
 def nsites_straight(block):
-    return sum(1 for s in block if s[0] == "sample")
+    return sum(1 for s in block if s[0] in ("sample", "asample"))
 
 
 def count_conds(block):
@@ -66,8 +83,8 @@ def block_fn(block):
         outs = []
         for s in block:
             t = s[0]
-            if t == "sample":
-                outs.append(echo(x))
+            if t in ("sample", "asample"):
+                outs.append(echo(x) if t == "sample" else aecho(x))
                 x = x + 1.0
             elif t == "det":
                 x = x * 2.0 + 1.0
@@ -117,7 +134,7 @@ def flatten_outs(block, outs, cs, ci):
     it = iter(outs)
     for s in block:
         t = s[0]
-        if t == "sample":
+        if t in ("sample", "asample"):
             res.append(np.asarray(next(it)))
         elif t == "cond":
             o = next(it)
@@ -175,7 +192,7 @@ class TermTable:
 
 def has_site(block):
     for s in block:
-        if s[0] == "sample":
+        if s[0] in ("sample", "asample"):
             return True
         if s[0] == "cond" and (has_site(s[1]) or has_site(s[2])):
             return True
@@ -233,13 +250,39 @@ def main():
         except Exception as e:  # noqa: BLE001
             c["err"] = type(e).__name__ + ": " + str(e)[:200]
         cases.append(c)
+    # ---- persistent sampler with keyword parameterisations across staging-cache states (C06) ----
+    for it in range(max(3, n // 8)):
+        av, bv = rng.randint(1, 9) / 10.0, rng.randint(1, 9) / 10.0
+        c = {"kind": "seed", "block": [["sample"]], "cs": [], "runs": [], "modes": [], "kw": True}
+        try:
+            fa = lambda v: kwecho(a=v)  # noqa: E731
+            fb = lambda v: kwecho(b=v)  # noqa: E731
+            outs = []
+            outs.append(np.asarray(seed(fa)(root, jnp.float32(av))))
+            seed(lambda v: kwecho(v))(root2, jnp.float32(av))
+            outs.append(np.asarray(seed(fb)(root, jnp.float32(bv))))
+            kwecho(b=jnp.float32(bv))
+            jax.clear_caches()
+            outs.append(np.asarray(seed(lambda v: kwecho(a=v))(root, jnp.float32(av))))
+            outs.append(np.asarray(jax.jit(seed(lambda v: kwecho(b=v)))(root, jnp.float32(bv))))
+            want_tags = [int(av * 10), 1000 * int(bv * 10), int(av * 10), 1000 * int(bv * 10)]
+            for o, w in zip(outs, want_tags):
+                t = table.lookup(o[:2])
+                # a wrong parameter binding is reported as an underivable key
+                c["runs"].append([t if int(o[2]) == w else None])
+                c["modes"].append("kw")
+        except Exception as e:  # noqa: BLE001
+            c["err"] = type(e).__name__ + ": " + str(e)[:200]
+        cases.append(c)
     # ---- lowering cases (C14) ----
     kinds = ["jit", "scan", "while", "fori", "cond", "nested_jit", "grad", "value_and_grad", "vmap",
-             "seed_while", "seed_jit", "seed_fori", "seed_ok", "seed_scan_while", "jit_det"]
-    for it in range(max(10, n // 3)):
+             "seed_while", "seed_jit", "seed_fori", "seed_ok", "seed_scan_while", "jit_det",
+             "jit_adev", "seed_ok_adev", "seed_scan_adev"]
+    for it in range(2 * len(kinds)):
         k = kinds[it % len(kinds)]
-        depth = rng.choice([1, 2])
-        site = lambda v: echo(v)[0].astype(jnp.float32) * 0.0 + v + 1.0  # noqa: E731
+        depth = 1 + it // len(kinds)
+        ech = aecho if k.endswith("adev") else echo
+        site = lambda v: ech(v)[0].astype(jnp.float32) * 0.0 + v + 1.0  # noqa: E731
         c = {"kind": "lower", "ctx": k, "depth": depth}
 
         def wrap(fn, d):
@@ -277,8 +320,12 @@ def main():
                 seed(lambda v: jax.lax.fori_loop(0, 2, lambda i, cc: body(cc), v))(root, 0.5)
             elif k == "seed_scan_while":
                 seed(lambda v: jax.lax.scan(lambda cc, _: (jax.lax.while_loop(lambda q: q < 1.0, body, cc), None), v, jnp.arange(2))[0])(root, 0.5)
-            elif k == "seed_ok":
+            elif k == "seed_ok" or k == "seed_ok_adev":
                 jax.jit(seed(body))(root, 0.5)
+            elif k == "jit_adev":
+                jax.jit(body)(0.5)
+            elif k == "seed_scan_adev":
+                jax.jit(seed(lambda v: jax.lax.scan(lambda cc, _: (body(cc), None), v, jnp.arange(2))[0]))(root, 0.5)
             c["raised"] = "none"
         except LowerErr:
             c["raised"] = "lowering"
